@@ -79,30 +79,36 @@ theorem bool_of_sub {t : Nat} (hs : sub t T.BOOL) (hne : t ≠ 0) : t = T.BOOL :
   show t = 1
   omega
 
-/-- `empty_test(d)` is accepted for every domain a quantifier can hold -/
-theorem emptyTest_ok {d : Expr} (hd : sub d.ty T.COMPOUND) (hnd : d.ty ≠ 0) : ∃ e, emptyTest d = .ok e ∧ e.ty = T.BOOL := by
-  have hcall : mkCall "len" (.cons d .nil) = .ok (.call T.NUMBER "len" (.cons d .nil)) := by
-    have hc := sub_compound_cases hd hnd
-    have hf : findFun "len" = some ⟨"len", [⟨[56], 2, none⟩]⟩ := by decide
-    unfold mkCall
-    rw [hf]
-    have hfilter : (([⟨[56], 2, none⟩] : List Sig).filter (·.accepts (ExprList.cons d .nil).tys)) = [⟨[56], 2, none⟩] := by
-      simp only [ExprList.tys]
-      simp only [List.mem_cons, List.not_mem_nil, or_false] at hc
-      rcases hc with h | h | h | h | h | h | h <;> rw [h] <;> decide
-    simp only [hfilter]
-    have hcast : castArgs (.cons d .nil) ((⟨[56], 2, none⟩ : Sig).paramsFor (ExprList.cons d .nil).length) = .ok (.cons d .nil) := by
-      have : (⟨[56], 2, none⟩ : Sig).paramsFor (ExprList.cons d .nil).length = [56] := by
-        simp only [ExprList.length]; decide
-      rw [this]
-      simp [castArgs, castE_stable (t := 56) hd hnd, bind, Except.bind, pure, Except.pure]
-    simp [hcast, bind, Except.bind, pure, Except.pure]
-    rfl
-  refine ⟨.bin T.BOOL "=" (.call T.NUMBER "len" (.cons d .nil)) (.lit T.NUMBER "0" (.int 0)), ?_, rfl⟩
+/-- `len(d)` is accepted, unchanged, for every domain a quantifier can hold -/
+theorem lenCall_ok {d : Expr} (hd : sub d.ty T.COMPOUND) (hnd : d.ty ≠ 0) :
+    mkCall "len" (.cons d .nil) = .ok (.call T.NUMBER "len" (.cons d .nil)) := by
+  have hc := sub_compound_cases hd hnd
+  have hf : findFun "len" = some ⟨"len", [⟨[56], 2, none⟩]⟩ := by decide
+  unfold mkCall
+  rw [hf]
+  have hfilter : (([⟨[56], 2, none⟩] : List Sig).filter (·.accepts (ExprList.cons d .nil).tys)) = [⟨[56], 2, none⟩] := by
+    simp only [ExprList.tys]
+    simp only [List.mem_cons, List.not_mem_nil, or_false] at hc
+    rcases hc with h | h | h | h | h | h | h <;> rw [h] <;> decide
+  simp only [hfilter]
+  have hcast : castArgs (.cons d .nil) ((⟨[56], 2, none⟩ : Sig).paramsFor (ExprList.cons d .nil).length) = .ok (.cons d .nil) := by
+    have : (⟨[56], 2, none⟩ : Sig).paramsFor (ExprList.cons d .nil).length = [56] := by
+      simp only [ExprList.length]; decide
+    rw [this]
+    simp [castArgs, castE_stable (t := 56) hd hnd, bind, Except.bind, pure, Except.pure]
+  simp [hcast, bind, Except.bind, pure, Except.pure]
+  rfl
+
+/-- `empty_test(d)` is accepted for every domain a quantifier can hold, and is `len(d) = 0` around `d` itself -/
+theorem emptyTest_eq {d : Expr} (hd : sub d.ty T.COMPOUND) (hnd : d.ty ≠ 0) :
+    emptyTest d = .ok (.bin T.BOOL "=" (.call T.NUMBER "len" (.cons d .nil)) (.lit T.NUMBER "0" (.int 0))) := by
   unfold emptyTest
-  simp only [hcall, bind, Except.bind]
+  simp only [lenCall_ok hd hnd, bind, Except.bind]
   have hb : findBin "=" = some ⟨"=", T.PRIMITIVE, T.PRIMITIVE, T.BOOL, true, true, false⟩ := by decide
   exact mkBin_stable hb (by simp only [Expr.ty]; decide) (by simp only [Expr.ty]; decide) (fun _ => rfl) (by simp only [Expr.ty]; decide) (by simp only [Expr.ty]; decide)
+
+theorem emptyTest_ok {d : Expr} (hd : sub d.ty T.COMPOUND) (hnd : d.ty ≠ 0) : ∃ e, emptyTest d = .ok e ∧ e.ty = T.BOOL :=
+  ⟨_, emptyTest_eq hd hnd, rfl⟩
 
 /-- an accepted quantifier `q x in d: body` (children already inside COMPOUND / BOOL) -/
 structure QCtx (q : Quant) (x : String) (d body : Expr) : Prop where
